@@ -705,6 +705,21 @@ func genLink(g *common.Gen, packets [][]byte) {
 		fixed = append(fixed, big(6, sz-4)+","+big(6, sz-4)+","+big(5, 10))
 		fixed = append(fixed, big(6, sz-4)+"."+big(6, sz-4)+"."+big(5, 10))
 	}
+	// lengths at which (bytes of T and L on the wire) + L wraps around 2^64: a size computed in unsigned 64-bit
+	// arithmetic comes out as 0 (or a few bytes) — an empty frame handed up for ever; T in every form, L in the
+	// 9-byte form, whole and one byte per read
+	for _, tf := range []int{1, 3, 5, 9} {
+		for _, d := range []int{-1, 0, 1} {
+			l := uint64(0) - uint64(tf+9) + uint64(int64(d))
+			blk := append(append(encTLForm(6, tf), encTLForm(l, 9)...), 1, 2, 3, 4)
+			fixed = append(fixed, common.Hex(blk))
+			var bytewise []string
+			for _, b := range blk {
+				bytewise = append(bytewise, common.Hex([]byte{b}))
+			}
+			fixed = append(fixed, strings.Join(bytewise, ","))
+		}
+	}
 	for _, s := range fixed {
 		g.Op("new stream")
 		g.Op("st %s", s)
